@@ -60,7 +60,10 @@ impl<'t> Int<'t> {
     }
 
     pub fn add_ast(&mut self, ast: Ast<'t>) -> Result<'t, ()> {
-        Self::default().ast_changes(self, ast)?;
+        // work on a copy, so that a failing chunk leaves the session untouched
+        let mut new = self.clone();
+        Self::default().ast_changes(&mut new, ast)?;
+        *self = new;
         Ok(())
     }
 
